@@ -283,6 +283,32 @@ def linear_sum(value, path=None):
     return total, its, ifs
 
 
+def main_sum_path(ps, table=A('self', 'positions')):
+    """the one path that computes an aggregate: the only path, or - when the code answers an empty table separately - the non-empty one, provided the empty
+    one returns 0 (the sum over nothing)"""
+    rs = [p for p in ps if p.outcome == 'return']
+    if len(ps) == 1 and len(rs) == 1:
+        return rs[0]
+    if len(ps) == 2 and len(rs) == 2:
+        def emptiness(p):
+            if len(p.conds) != 1:
+                return None
+            c, v, _ = p.conds[0]
+            if c == table:
+                return not v
+            from ..lib import as_len_test
+            t = as_len_test(c, v)
+            if t is not None and t[0] == table:
+                return t[1] == 'empty'
+            return None
+        es = [emptiness(p) for p in rs]
+        if sorted(es, key=str) == [False, True]:
+            empty, full = (rs[0], rs[1]) if es[0] else (rs[1], rs[0])
+            if empty.value == ZERO:
+                return full
+    return None
+
+
 def s4_aggregates(ctx):
     """Portfolio.total_pnl / total_realised_pnl / total_unrealised_pnl are the sums of the per-position figures over every open position."""
     def no_props(caller, callee, depth):
@@ -300,10 +326,11 @@ def s4_aggregates(ctx):
         qn = 'PositionHandler.' + name
         fn = ctx.fn(qn)
         ps = summarise(ctx, qn, policy=no_props)
-        nps = [p for p in ps if p.outcome == 'return']
-        if len(nps) != 1 or len(ps) != 1:
+        mp = main_sum_path(ps)
+        if mp is None:
             ctx.undecided('C03.S4', '%s has one path' % qn, fn.site(), [cond_str(p) for p in ps][:4])
             continue
+        nps = [mp]
         ls = linear_sum(nps[0].value, nps[0]) if nps[0].value != ZERO else (ZERO, [], [])
         if ls is None:
             ctx.undecided('C03.S4', '%s is a linear combination of sums over the positions' % qn, fn.site(), fmt(nps[0].value)[:200])
